@@ -20,13 +20,13 @@ func init() {
 		ID:        "C17",
 		Level:     "exploration",
 		Technique: "exhaustive enumeration of all decorator nestings up to a depth bound, each executed on the real ErrorCode / live session and compared with an independent outermost-first reference walk",
-		Rule: "every sequence (innermost first) of length <= depth over 22 decorator letters {2 codes, 2 severities, 2 hints, 2 details, 2 constraint names, 5 source locations + 2 with an empty file / function, 4 default- or empty-valued decorations, fmt %w wrap} x 4 base texts (incl. the empty text), plus the nil error; " +
+		Rule: "every sequence (innermost first) of length <= depth over 25 decorator letters {2 codes, 2 severities, 3 hints, 3 details (one each with % verbs), 2 constraint names, 5 source locations + 1 sharing file and line with another + 2 with an empty file / function, 4 default- or empty-valued decorations, fmt %w wrap} x 5 base texts (incl. the empty text and one with % verbs), plus the nil error; consecutive: every 1-letter error followed by every error of <= 2 letters, the second one checked; " +
 			"a case is non-trivial when it carries at least one decoration; distinct = distinct (base, shape)",
 		Assumptions: []string{"decoration values are non-empty and NUL-free", "a ReadyForQuery after the ErrorResponse written by ErrorCode is tolerated, not required"},
 		Enumerate:   c17Enumerate,
 		Bounds: func(tier string) map[string]any {
 			d, sd := c17Depth(tier)
-			return map[string]any{"nesting_depth_direct": d, "nesting_depth_session": sd, "letters": 22, "bases": len(errBases)}
+			return map[string]any{"nesting_depth_direct": d, "nesting_depth_session": sd, "letters": len(decorators()), "bases": len(errBases)}
 		},
 		RequiredOutcomes: []string{"plain", "decorated", "nil-error"},
 	})
@@ -136,6 +136,34 @@ func c17Enumerate(tier string, emit explore.Emit) {
 					return res
 				}})
 		}
+	})
+	// two errors reported one after the other: what was reported first must not show in the second
+	forShapes(len(ds), 1, func(first []int) {
+		forShapes(len(ds), 2, func(second []int) {
+			if len(first) == 0 || len(second) == 0 {
+				return
+			}
+			first, second := append([]int(nil), first...), append([]int(nil), second...)
+			emit(explore.Case{Family: "consecutive", Size: 10 + len(second),
+				Desc: func() any {
+					return map[string]any{"first_error": shapeNames(ds, first), "then_reported": shapeNames(ds, second), "base": "boom"}
+				},
+				Run: func() explore.Result {
+					var res explore.Result
+					res.Outcome = "decorated"
+					res.Key = fmt.Sprint("consecutive", first, second)
+					var sink bytes.Buffer
+					wire.ErrorCode(buffer.NewWriter(harness.Quiet, &sink), buildErr(ds, "first", first))
+					sink.Reset()
+					wire.ErrorCode(buffer.NewWriter(harness.Quiet, &sink), buildErr(ds, "boom", second))
+					before := len(res.Violations)
+					c17Check(&res, sink.Bytes(), expectFields(ds, "boom", second))
+					if len(res.Violations) > before {
+						res.Violations[before].Clause = "earlier-error-shows-in-later-one"
+					}
+					return res
+				}})
+		})
 	})
 	// once per shape through a live session, as a statement error
 	forShapes(len(ds), sdepth, func(sh []int) {
